@@ -134,8 +134,10 @@ def run_case(ff, g):
             gph = meta.nodes[n]['graph']
             # the further attributes of an atom are those its residue carries in the sequence (taken from the input)
             rat = tuple(sorted((str(k), str(v)) for k, v in g.get('rattrs', {}).get(str(key_to_i[int(n)]), {}).items()))
+            # ... plus the type its block gives it (links select atoms by the block's attributes, not by replaced ones)
+            atype_of = {a['key']: a['atype'] for a in before['atoms']}
             residues.append((int(n), int(meta.nodes[n]['resid']),
-                             [(int(a), gph.nodes[a]['atomname'], gph.nodes[a]['resname'], rat) for a in gph.nodes]))
+                             [(int(a), gph.nodes[a]['atomname'], gph.nodes[a]['resname'], rat + (('atype', str(atype_of[int(a)])),)) for a in gph.nodes]))
         edges = [(int(a), int(b), None if meta.edges[a, b].get('linktype') is None else str(meta.edges[a, b]['linktype']))
                  for a, b in meta.edges]
         links = extract_links(vff)
@@ -322,6 +324,9 @@ def run(ctx):
             ff, names = ffgen.gen_arrangement_ff(rng)
             g = ffgen.gen_arrangement_graph(rng, names)
             ctx.feature('per_atom_resname_links')
+        elif rng.random() < 0.06:
+            ff, g = ffgen.gen_replace_select_ff(rng)
+            ctx.feature('replace_and_select_links')
         else:
             ff = ffgen.gen_ff(rng, uniform_nrexcl=1, nlinks=rng.randint(0, 5))
             g = ffgen.gen_resgraph(rng, ff)
